@@ -409,6 +409,7 @@ Ltac guard_facts :=
   | H : in_state _ _ = true |- _ => apply in_state_true in H
   | H : in_state _ _ = false |- _ => apply in_state_false in H
   | H : connecting _ = true |- _ => unfold connecting in H; apply andb_prop in H
+  | H : proxy_connecting _ = true |- _ => unfold proxy_connecting in H; apply andb_prop in H
   | H : frames_flow _ = true |- _ => unfold frames_flow in H; apply andb_prop in H
   | H : _ && _ = true |- _ => apply andb_prop in H
   | H : negb _ = true |- _ => apply negb_true_iff in H
